@@ -230,12 +230,13 @@ Theorem bibtex_roundtrip_partial : forall enc d, bib_ok enc d -> write_read enc 
 Proof. exact bibtex_roundtrip_pf. Qed.
 Print Assumptions bibtex_roundtrip_partial.
 
-(* ---- chains of ANY formats (BibTeX, BibTeXML, YAML; any length), preserve_case on, on the common domain
-   all_ok = tree_ok /\ bib_ok: the chain ends with [expect fs true d], whose entries are those of d
-   (chain_entries_preserved) -- only the preamble is joined into one text / not carried by BibTeXML.
-   Partial: preserve_case = False with a BibTeX step is not proved (lower-casing keeps the domain, not shown). *)
-Theorem chain_roundtrip_partial : forall enc fs d, all_ok enc d -> chain enc fs true d = Ok (expect fs true d).
-Proof. exact chain_roundtrip_pf. Qed.
+(* ---- chains of ANY formats (BibTeX, BibTeXML, YAML; any length), with or without identifier lower-casing, on the
+   common domain all_ok = tree_ok /\ bib_ok: the chain ends with [expect fs pc d], whose entries are those of d
+   (chain_entries_preserved) resp. those of d with ASCII-lower on keys, types, field names (chain_entries_lowered) --
+   otherwise only the preamble is joined into one text / not carried by BibTeXML.  (Lower-casing keeps the domain:
+   a lower-cased NAME is a NAME, a lower-cased key a key.)  Partial only through the domain: no persons, enc v = v. *)
+Theorem chain_roundtrip_partial : forall enc fs pc d, all_ok enc d -> chain enc fs pc d = Ok (expect fs pc d).
+Proof. exact chain_roundtrip_pc_pf. Qed.
 Print Assumptions chain_roundtrip_partial.
 
 Definition ex_db_bib : wdb :=
@@ -243,9 +244,10 @@ Definition ex_db_bib : wdb :=
          mkWE (s2l "k2") (s2l "misc") [] []] [s2l "\def\x{y} "; s2l "z"].
 Example ex_bib_ok : all_ok latex_enc ex_db_bib /\
   write_bibtex latex_enc ex_db_bib <> Ok [] /\
-  chain latex_enc [FBib; FYaml; FBib; FXml] true ex_db_bib = Ok (drop_preamble ex_db_bib).
+  chain latex_enc [FBib; FYaml; FBib; FXml] true ex_db_bib = Ok (drop_preamble ex_db_bib) /\
+  chain latex_enc [FYaml; FBib; FBib] false ex_db_bib = Ok (norm_preamble (map_ids lower ex_db_bib)).
 Proof.
-  split; [|split; [intro H; vm_compute in H; discriminate H|vm_compute; reflexivity]].
+  split; [|split; [intro H; vm_compute in H; discriminate H|split; vm_compute; reflexivity]].
   unfold all_ok, tree_ok, bib_ok, wf_db, yaml_ok, xml_ok.
   repeat match goal with |- _ /\ _ => split end;
     try solve [repeat constructor; cbn; try (intros [H|H]; try discriminate H; try contradiction); try tauto; try discriminate];
